@@ -22,8 +22,26 @@ fn a_star(s: rf::SuiteId, sk: &bls12_381_plus::Scalar, e: &bls12_381_plus::Scala
     rf::g1_c(&(b * (sk + e).invert().unwrap()))
 }
 
-fn history<X: Sx>(ctx: &Ctx, idx: u64, l: usize, steps: usize, exhaustive_positions: bool) {
+fn history<X: Sx, Y: Sx>(ctx: &Ctx, idx: u64, l: usize, steps: usize, exhaustive_positions: bool) {
     let mut r = ctx.rng("c12", idx);
+    // prior history on this thread under the OTHER suite with the very values this walk will use (the recurring values, the
+    // empty value, a scalar-sized one): anything remembered per value must not leak from one suite into the other
+    {
+        let (sk_y, pk_y) = key_from_scalar(crate::c04::rand_scalar(&mut r));
+        let warm: Vec<Vec<u8>> = vec![b"A".to_vec(), b"B".to_vec(), vec![], vec![7u8; 32]];
+        if let Some(mut s) = ctx.call("sign", "other-suite-history", None, || Sig::<Y>::sign(Some(&warm), &sk_y, &pk_y, None)).value {
+            let mut cur = warm.clone();
+            for (i, nv) in [(0usize, b"B".to_vec()), (1, b"A".to_vec()), (2, b"A".to_vec()), (3, vec![]), (0, vec![7u8; 32])] {
+                if let Some(n2) = ctx.call("update_signature", "other-suite-history", None, || s.update_signature(&sk_y, &cur[i], &nv, i, warm.len())).value {
+                    cur[i] = nv;
+                    if !ctx.call("verify", "other-suite-history", None, || n2.verify(&pk_y, Some(&cur), None)).outcome.is_ok() {
+                        ctx.violation("C12:updated-signature-does-not-verify", json!({"case":"other-suite-history","suite":name::<Y>(),"messages":msgs_json(&cur)}));
+                    }
+                    s = n2;
+                }
+            }
+        }
+    }
     let skv = crate::c04::rand_scalar(&mut r);
     let (sk, pk) = key_from_scalar(skv);
     let hdr = Hdr::gen(&mut r, &[1, 30]);
@@ -46,13 +64,14 @@ fn history<X: Sx>(ctx: &Ctx, idx: u64, l: usize, steps: usize, exhaustive_positi
     }
     for _ in 0..steps {
         let i = rand_range(&mut r, l);
-        let kind = rand_range(&mut r, 8);
+        let kind = rand_range(&mut r, 9);
         plan.push(match kind {
             0 => (i, msgs[i].clone(), "same-as-old"), // placeholder, refreshed below
             1 => (i, vec![], "empty"),
             2 => (i, rand_bytes(&mut r, 300), "long"),
             3 => (i, b"A".to_vec(), "revisit-A"),
             4 => (i, b"B".to_vec(), "revisit-B"),
+            7 => (i, vec![7u8; 32], "revisit-scalar-sized"),
             6 => {
                 // exactly 32 octets: the size of a scalar / digest; with a leading byte below 0x73 it is also a canonical scalar encoding
                 let mut v = rand_bytes(&mut r, 32);
@@ -129,11 +148,15 @@ fn history<X: Sx>(ctx: &Ctx, idx: u64, l: usize, steps: usize, exhaustive_positi
     for ui in [l, l + 1, 2 * l, 1 << 32, usize::MAX - 1, usize::MAX] {
         let case = format!("{}/out-of-range/{}", base, ui);
         ctx.distinct(&case);
-        let u = ctx.call("update_signature", &case, None, || sig.update_signature(&sk, &msgs[0], b"x", ui, l));
-        match u.outcome {
-            Outcome::Err(_) => {}
-            Outcome::Ok => ctx.violation("C12:out-of-range-position-accepted", json!({"case":case})),
-            Outcome::Panic(p) => ctx.violation("C12:out-of-range-position-panics", json!({"case":case,"panic":p})),
+        // stated old and new value: different, identical, both empty (a no-op update is still out of range)
+        let pairs: [(&[u8], &[u8], &str); 3] = [(&msgs[0], b"x", "different"), (b"same", b"same", "identical"), (b"", b"", "both-empty")];
+        for (old, new, vn) in pairs {
+            let u = ctx.call("update_signature", &case, None, || sig.update_signature(&sk, old, new, ui, l));
+            match u.outcome {
+                Outcome::Err(_) => {}
+                Outcome::Ok => ctx.violation("C12:out-of-range-position-accepted", json!({"case":case,"values":vn})),
+                Outcome::Panic(p) => ctx.violation("C12:out-of-range-position-panics", json!({"case":case,"values":vn,"panic":p})),
+            }
         }
     }
     // wrong n: the updated signature must not verify for the intended vector unless n is the real count
@@ -145,6 +168,10 @@ fn history<X: Sx>(ctx: &Ctx, idx: u64, l: usize, steps: usize, exhaustive_positi
         let u = ctx.call("update_signature", &case, Some(l as u64 + 70), || sig.update_signature(&sk, &msgs[0], b"y", 0, n));
         if u.outcome.is_panic() {
             ctx.violation("C12:wrong-n-panics", json!({"case":case,"outcome":u.outcome.short()}));
+        }
+        let u = ctx.call("update_signature", &case, Some(l as u64 + 70), || sig.update_signature(&sk, b"same", b"same", 0, n));
+        if u.outcome.is_panic() {
+            ctx.violation("C12:wrong-n-panics", json!({"case":case,"values":"identical","outcome":u.outcome.short()}));
         }
     }
     ctx.count("distinct_states_visited", states.len() as u64);
@@ -160,15 +187,15 @@ pub fn scenarios(ctx: &Ctx) -> Vec<Scenario> {
             let i = idx;
             idx += 1;
             let _ = rep;
-            v.push(scenario(format!("sha/L{l}"), move |c| history::<Sha>(c, i, l, steps, true)));
-            v.push(scenario(format!("shake/L{l}"), move |c| history::<Shake>(c, i, l, steps, true)));
+            v.push(scenario(format!("sha/L{l}"), move |c| history::<Sha, Shake>(c, i, l, steps, true)));
+            v.push(scenario(format!("shake/L{l}"), move |c| history::<Shake, Sha>(c, i, l, steps, true)));
         }
     }
     for &l in ctx.t(&[16usize, 64][..], &[8usize, 16, 33, 64, 100, 257][..]) {
         let i = idx;
         idx += 1;
-        v.push(scenario(format!("sha/L{l}"), move |c| history::<Sha>(c, i, l, steps, false)));
-        v.push(scenario(format!("shake/L{l}"), move |c| history::<Shake>(c, i, l, steps, false)));
+        v.push(scenario(format!("sha/L{l}"), move |c| history::<Sha, Shake>(c, i, l, steps, false)));
+        v.push(scenario(format!("shake/L{l}"), move |c| history::<Shake, Sha>(c, i, l, steps, false)));
     }
     v
 }
